@@ -395,6 +395,9 @@ pub fn run(run: &mut Run) {
         strs::edits1(&text::sq_name(f), &SIGMA_SMALL, &mut |s| small_text(ctx, s));
         for i in 0..320 {
             strs::edits1(&u[f * 320 + i].0, &strs::SIGMA_UCI, &mut |s| uci_text(ctx, s, &none));
+            if thorough {
+                strs::edits2(&u[f * 320 + i].0, &strs::SIGMA_UCI, &mut |s| uci_text(ctx, s, &none));
+            }
         }
         if f == 0 {
             strs::edits1("0000", &strs::SIGMA_UCI, &mut |s| uci_text(ctx, s, &b4));
